@@ -94,6 +94,13 @@ def run_shard(rec, tier, seed, shard, nshards):
                 if style == "unequal":
                     chains = np.sort(chains)
             names = np.array(["s%d" % int(x) for x in rng.integers(0, 3, size=E)], dtype=str)
+            if rng.random() < 0.3:
+                # the matrices arrive in other containers: read-only (loaded lazily, shared between workers), strided,
+                # column-major (a transposed samples-by-experiments matrix), a window into a bigger buffer
+                pred, kp_ = kit.dress(rng, pred)
+                obs, ko_ = kit.dress(rng, obs)
+                chains = kit.dress(rng, chains.astype(int), kind=str(rng.choice(["plain", "readonly", "strided"])))[0]
+                rec.count("evaluation_cases_on_arrays_in_other_containers")
             w = {"E": E, "T": T, "chains": chains.tolist()}
             rec.case(("eval", kit.array_hash(pred), kit.array_hash(obs), kit.array_hash(chains)), nontrivial=len(set(np.bincount(chains)[np.bincount(chains) > 0].tolist())) > 1 or T > 1)
             try:
